@@ -61,6 +61,12 @@ void run(const std::string & tn)
         m = std::max(m, std::fabs(al[i]));
       }
       c.judge(inband ? "log(exp a)=a [pi band]" : "log(exp a)=a", (double)(e / m), inband ? Tpi : T);
+      // "relative accuracy, uniformly in a, for rotation angles that are arbitrarily small": for tangents that are small as
+      // a whole the error is measured relative to |a| itself (a tiny tangent must not be flushed to zero), above the floor
+      // of 4 ulp of 1 that the stored coefficients can resolve (C1: a log-scaling of 0 comes back as 1.1e-16)
+      L na = 0;
+      for (int i = 0; i < D; ++i) na = std::max(na, std::fabs(al[i]));
+      if (na > 0 && na < 1 && !inband) c.judge("log(exp a)=a relative to |a|, |a|<1", (double)(std::max((L)0, e - 4 * (L)epsS) / na), T);
     }
   });
 
